@@ -260,13 +260,60 @@ def w_bands(case):
         for t in times])]), 'violations': viol}
 
 
-WORKERS = {'data': w_data, 'bands': w_bands}
+def w_simulation(case):
+    """PDTimeSeriesPlot.add_simulation: one line trace holding exactly the given
+    (time, value) pairs; the caller's frame is left alone."""
+    viol = []
+    t = list(case['times'])
+    v = list(case['values'])
+    df = pd.DataFrame({'Time': t, 'Value': v})
+    if case.get('extra_col'):
+        df.insert(0, 'Comment', ['c%d' % i for i in range(len(df))])
+    ix = case.get('index', 'range')
+    if ix == 'reversed':
+        df.index = list(range(len(df)))[::-1]
+    elif ix == 'dup':
+        df.index = [i % 2 for i in range(len(df))]
+    elif ix == 'labels':
+        df.index = ['r%d' % i for i in range(len(df))]
+    keys = {}
+    if case.get('custom_keys'):
+        df = df.rename(columns={'Time': 'T', 'Value': 'Y'})
+        keys = {'time_key': 'T', 'value_key': 'Y'}
+    before = df.copy(deep=True)
+    fig = chi.plots.PDTimeSeriesPlot()
+    n0 = len(fig._fig.data)
+    fig.add_simulation(df, **keys)
+    if not before.equals(df) or list(before.index) != list(df.index) or \
+            list(before.columns) != list(df.columns):
+        viol.append({'sub': 'frame', 'message': 'add_simulation altered the '
+                     'caller\'s data frame', 'expected': 'unchanged',
+                     'observed': 'changed', 'behaviour': 'frame_mutated'})
+    new = fig._fig.data[n0:]
+    if len(new) != 1:
+        viol.append({'sub': 'sim_traces', 'message': 'add_simulation does not add '
+                     'exactly one trace', 'expected': 1, 'observed': len(new),
+                     'behaviour': 'sim_traces'})
+    else:
+        got = sorted(zip([float(x_) for x_ in new[0].x],
+                         [float(y_) for y_ in new[0].y]))
+        exp = sorted(zip([float(x_) for x_ in t], [float(y_) for y_ in v]))
+        if got != exp:
+            viol.append({'sub': 'sim_pairs', 'message': 'the simulation trace does '
+                         'not hold exactly the supplied (time, value) pairs',
+                         'expected': exp, 'observed': got,
+                         'behaviour': 'sim_pairs'})
+    return {'transitions': 2, 'outcome': key_of(case), 'violations': viol}
+
+
+WORKERS = {'data': w_data, 'bands': w_bands, 'simulation': w_simulation}
 
 
 def build(tier, seed):
     data = []
-    id_sets = [[1], [2, 1], ['a', 1], [1, 2, 'a']] if tier == 'thorough' else \
-        [[1], [2, 1], ['a', 1]]
+    # (0 is an identifier like any other)
+    id_sets = [[1], [2, 1], ['a', 1], [1, 2, 'a'], [0, 1], [1, 0, 2]] \
+        if tier == 'thorough' else [[1], [2, 1], ['a', 1], [1, 0]]
     for cls in CLASSES:
         for ids in id_sets:
             for n_obs, undosed_last in ((1, False), (2, False), (1, True)):
@@ -324,6 +371,29 @@ def build(tier, seed):
         for order in (list(range(len(rows13))), list(range(len(rows13)))[::-1]):
             data.append({'cls': cls, 'rows': [rows13[i] for i in order],
                          'observable': 'A', 'custom_keys': False})
+    # PD figures fed with a PKPD dataset: rows without an observable label (dose
+    # rows, one individual has nothing else) are no measurements
+    for cls in ('PDTS', 'PDPP'):
+        for n_obs in (1, 2):
+            rows_pd = []
+            for k, _id in enumerate([1, 2, 3]):
+                if k < 2:
+                    rows_pd.append([_id, 0.5 + k, 'A', 1.5 + k, None, None])
+                    rows_pd.append([_id, 2.5, 'A', 37.2 + k, None, None])
+                    if n_obs == 2:
+                        rows_pd.append([_id, 1.0, 'B', 7.0 + k, None, None])
+                rows_pd.append([_id, 0.0, None, None, 2.0 + k, 0.5])
+                rows_pd.append([_id, 2.5, None, 4.4, None, None])
+            n_ = len(rows_pd)
+            for order in (list(range(n_)), list(range(n_))[::-1],
+                          list(range(1, n_, 2)) + list(range(0, n_, 2))):
+                for obs in (None, 'A'):
+                    if obs is None and order[0] != 0:
+                        continue      # (the default is the first label met)
+                    for keep in (False, True):
+                        data.append({'cls': cls, 'rows': [rows_pd[i] for i in order],
+                                     'observable': obs, 'custom_keys': False,
+                                     'keep_dose_cols': keep})
     # small frames: every row permutation
     small = [[1, 0.5, 'A', 2.0, None, None], [2, 0.5, 'A', 2.0, None, None],
              [1, 1.5, 'B', 3.0, None, None], [2, 1.0, 'A', 1.0, None, None]]
@@ -373,6 +443,30 @@ def build(tier, seed):
                         'samples': [[0.5, [float(v) for v in range(1, n0 + 1)]],
                                     [1.5, [0.5 * v for v in range(1, n1 + 1)]]],
                         'row_order': ['asc', 'desc', 'interleaved'][k_ % 3]})
+    # a few hundred samples per time point and bulk probabilities whose percentiles
+    # have more than two decimals
+    for cls in ('PDPP', 'PKPP'):
+        for n_s in (200, 333):
+            for ps in ([0.95], [0.99], [0.305], [0.9, 0.95, 0.99], [0.125, 0.875]):
+                bands.append({
+                    'cls': cls, 'probs': ps,
+                    'samples': [[0.5, [0.37 * v_ for v_ in range(1, n_s + 1)]],
+                                [1.5, [100.0 - 0.21 * v_ for v_ in range(n_s)]]],
+                    'row_order': 'interleaved'})
+    # samples piling up on a lower / upper limit (censored or rounded values): many
+    # ties towards the tails
+    for cls in ('PDPP', 'PKPP'):
+        for n_lo, n_mid, n_hi in ((6, 3, 7), (0, 4, 12), (12, 4, 0), (5, 0, 5),
+                                  (9, 1, 2), (3, 10, 3)):
+            for ps in ([0.2], [0.5], [0.8], [0.2, 0.6], [0.1, 0.9]):
+                s0 = [1.0] * n_lo + [2.0 + 0.5 * k_ for k_ in range(n_mid)] + \
+                    [9.0] * n_hi
+                s1 = [0.5] * n_hi + [1.0 + 0.25 * k_ for k_ in range(n_mid)] + \
+                    [7.0] * n_lo
+                bands.append({'cls': cls, 'probs': ps,
+                              'samples': [[0.5, s0], [1.5, s1]],
+                              'row_order': ['asc', 'desc', 'interleaved'][
+                                  (n_lo + len(ps)) % 3]})
     # distinct time points that differ only far behind the decimal point
     for cls in ('PDPP', 'PKPP'):
         for t0, dt in ((10000.0, 0.005), (1.0, 1e-9), (250.0, 1e-4)):
@@ -383,8 +477,28 @@ def build(tier, seed):
                                 [t0 + dt, [100.0 + v for v in range(1, 31)]],
                                 [t0 + 2 * dt, [1000.0 + v for v in range(1, 21)]]],
                     'row_order': 'asc'})
+    sims = []
+    base_t = [0.0, 0.5, 1.0, 1.5, 2.5]
+    base_v = [1.0, 3.5, 2.0, 2.0, 0.7]
+    for n in (1, 2, 3, 5):
+        orders_ = list(itertools.permutations(range(n))) if n <= 3 else [
+            tuple(range(5)), (4, 3, 2, 1, 0), (0, 2, 4, 1, 3), (0, 1, 2, 4, 3),
+            # a refinement grid appended to a coarse one
+            (0, 2, 4, 1, 3)[::-1]]
+        for o in orders_:
+            for ix in ('range', 'reversed', 'dup', 'labels'):
+                for ck, extra in ((False, False), (True, False), (False, True)):
+                    sims.append({'times': [base_t[i] for i in o],
+                                 'values': [base_v[i] for i in o], 'index': ix,
+                                 'custom_keys': ck, 'extra_col': extra})
+    # tied times
+    for ix in ('range', 'reversed'):
+        sims.append({'times': [1.0, 0.5, 1.0, 0.5], 'values': [2.0, 1.0, 3.0, 1.0],
+                     'index': ix})
     return {
         'parts': [
+            Part('simulation', sims, w_simulation,
+                 'PDTimeSeriesPlot.add_simulation: time orders x row labels x keys'),
             Part('data', data, w_data, 'figure class x ID sets x observables x row '
                  'orders x keys'),
             Part('bands', bands, w_bands, 'sample multisets x bulk probabilities'),
